@@ -129,6 +129,11 @@ def run(an: Analysis, rep):
                              "normal form decodes to the normal form again (docstring slot, first-use order of the tables, jump targets)")
     rep.run(_c03y.r03e, an, shy)
     rep.run(_c03y.r03t, an, shy)
+    from . import c02 as _c02g, c04 as _c04g
+    rep.run(_c02g.r02f, an, _SR6(rep, "R06.G", "the decoder's instruction function folded over witness code units (shared with C02's R02.F): the jump structure of the normal form is the one CPython executes, "
+                                               "so re-encoding and decoding it again finds the same blocks"))
+    rep.run(_c04g.r043, an, _SR6(rep, "R06.A", "argument counts and flags written by the encoder are the ones the decoder reads the signature from (shared with C04's R04.3): a count written without the "
+                                               "positional-only parameters comes back as another signature after to_code / from_code"))
     fn, p, arms, fall_identity = parse_normalize(an)
     dcs, has_priv, reach = classes_with_private_reach(an)
     # R06.3: projection - every arm's result is built only from resets, recursion on the same field, or untouched public fields
